@@ -325,6 +325,11 @@ pub fn worker_main() -> i32 {
             "int" => run_interp(&bytes),
             "psbt" => run_psbt(&bytes),
             "plan" => run_plan(&bytes),
+            // controls of the containment itself (never generated as a case)
+            "ctl-spin" => loop {
+                std::hint::black_box(bytes.len());
+            },
+            "ctl-panic" => panic!("control panic"),
             _ => {}
         });
         match r {
@@ -367,6 +372,60 @@ fn spawn_worker() -> Worker {
         }
     });
     Worker { child, stdin, rx }
+}
+
+enum HangVerdict {
+    Answered(String),
+    Died,
+    CpuExceeded(u64),
+}
+
+/// CPU milliseconds (user + system) a process has used so far
+fn cpu_ms(pid: u32) -> Option<u64> {
+    let st = std::fs::read_to_string(format!("/proc/{}/stat", pid)).ok()?;
+    // fields after the parenthesised command name; utime and stime are the 14th and 15th overall
+    let rest = &st[st.rfind(')')? + 2..];
+    let f: Vec<&str> = rest.split(' ').collect();
+    let ticks: u64 = f.get(11)?.parse::<u64>().ok()? + f.get(12)?.parse::<u64>().ok()?;
+    let hz = unsafe { libc::sysconf(libc::_SC_CLK_TCK) }.max(1) as u64;
+    Some(ticks * 1000 / hz)
+}
+
+/// One input, alone, in a fresh worker: answered, died, or used more CPU time than its budget.
+fn confirm_hang(c: &Case) -> HangVerdict {
+    let mut w = spawn_worker();
+    let pid = w.child.id();
+    let base = cpu_ms(pid).unwrap_or(0);
+    let line = format!("{}\t{}\n", c.kind, hex(&c.payload));
+    if w.stdin.write_all(line.as_bytes()).and_then(|_| w.stdin.flush()).is_err() {
+        let _ = w.child.kill();
+        let _ = w.child.wait();
+        return HangVerdict::Died;
+    }
+    let wall = std::time::Instant::now();
+    loop {
+        match w.rx.recv_timeout(Duration::from_millis(50)) {
+            Ok(l) => {
+                drop(w.stdin);
+                let _ = w.child.wait();
+                return HangVerdict::Answered(l);
+            }
+            Err(RecvTimeoutError::Disconnected) => {
+                let _ = w.child.wait();
+                return HangVerdict::Died;
+            }
+            Err(RecvTimeoutError::Timeout) => {
+                let used = cpu_ms(pid).unwrap_or(0).saturating_sub(base);
+                // the wall ceiling only ends a worker that sleeps without using CPU (none of the
+                // entry points blocks); it is 100 budgets wide so that load cannot reach it
+                if used > c.budget_ms || wall.elapsed().as_millis() as u64 > 100 * c.budget_ms {
+                    let _ = w.child.kill();
+                    let _ = w.child.wait();
+                    return HangVerdict::CpuExceeded(used);
+                }
+            }
+        }
+    }
 }
 
 #[derive(Clone)]
@@ -441,8 +500,26 @@ fn run_cases(rep: &Report, cases: &[Case]) -> BTreeMap<&'static str, u64> {
                 Err(RecvTimeoutError::Timeout) => {
                     let _ = w.child.kill();
                     let _ = w.child.wait();
-                    *cen.entry("hangs").or_insert(0) += 1;
-                    report(rep, &cases[j], format!("hang-{}", cases[j].origin), format!("no answer within {} ms (hang or super-linear time)", cases[j].budget_ms));
+                    // wall time says nothing on a loaded machine: the verdict is taken from the CPU time
+                    // a fresh worker spends on this one input
+                    match confirm_hang(&cases[j]) {
+                        HangVerdict::Answered(l) => {
+                            *cen.entry("cases_completed").or_insert(0) += 1;
+                            *cen.entry("slow_by_wall_clock_only").or_insert(0) += 1;
+                            if let Some(p) = l.strip_prefix("P ") {
+                                *cen.entry("panics").or_insert(0) += 1;
+                                report(rep, &cases[j], format!("panic@{}", panic_site(p)), format!("panic: {}", p));
+                            }
+                        }
+                        HangVerdict::Died => {
+                            *cen.entry("worker_deaths").or_insert(0) += 1;
+                            report(rep, &cases[j], format!("crash-0-{}", cases[j].origin), "worker died on this input (re-run alone after a wall-clock overrun)".into());
+                        }
+                        HangVerdict::CpuExceeded(ms) => {
+                            *cen.entry("hangs").or_insert(0) += 1;
+                            report(rep, &cases[j], format!("hang-{}", cases[j].origin), format!("no answer after {} ms of CPU time on this input alone (budget {} ms: hang or super-linear time)", ms, cases[j].budget_ms));
+                        }
+                    }
                     j += 1;
                     died = true;
                 }
@@ -1134,6 +1211,19 @@ pub fn run(tier: Tier) -> i32 {
     groups.push(("interpreter-terms", gen_interp_terms(it_nodes, it_len)));
     groups.push(("psbt", gen_psbt()));
     groups.push(("planner", gen_plan()));
+    // positive controls of the containment: a spinning input is reported from its CPU time, a normal
+    // and a panicking input are answered; anything else is a machinery failure, not a verdict
+    {
+        let ctl = |kind: &'static str, payload: &[u8]| Case { kind, payload: payload.to_vec(), budget_ms: 300, origin: "control" };
+        let spin = matches!(confirm_hang(&ctl("ctl-spin", b"x")), HangVerdict::CpuExceeded(ms) if ms >= 300);
+        let normal = matches!(confirm_hang(&ctl("str", b"pk(A)")), HangVerdict::Answered(ref l) if l == "D");
+        let pan = matches!(confirm_hang(&ctl("ctl-panic", b"x")), HangVerdict::Answered(ref l) if l.starts_with("P "));
+        if !(spin && normal && pan) {
+            eprintln!("C11 containment controls failed: spin={} normal={} panic={}", spin, normal, pan);
+            return 2;
+        }
+        rep.count("containment_controls_ok", 3);
+    }
     let mut sizes = serde_json::Map::new();
     let mut all: Vec<Case> = vec![];
     for (n, g) in &groups {
